@@ -574,6 +574,7 @@ func (r *Reader) Document() (*model.Document, error) {
 
 	// Track current list being built
 	var currentList *model.List
+	var currentListStyle string
 	var currentListStartY float64
 
 	finalizeList := func() {
@@ -601,7 +602,13 @@ func (r *Reader) Document() (*model.Document, error) {
 
 			// Check if this is a list item
 			if para.IsListItem {
+				// a list with another list style directly after this one is a
+				// new list (it may be numbered where this one is bulleted)
+				if currentList != nil && para.StyleName != currentListStyle {
+					finalizeList()
+				}
 				if currentList == nil {
+					currentListStyle = para.StyleName
 					isOrdered := false
 					if r.styleResolver != nil && para.StyleName != "" {
 						ll := r.styleResolver.ResolveListLevel(para.StyleName, para.ListLevel)
